@@ -113,3 +113,44 @@ pub fn run_history_with_limit_after(case: &Term) -> Term {
     let calls: Vec<Term> = interp.context::<Recorder>(ctx).calls.iter().map(|c| tstrs(c)).collect();
     tl(vec![tl(outs), tl(calls), tl(vec![]), Term::Int(interp.scope_level() as i128)])
 }
+
+
+/// The same argument as computed data: a canonical integer becomes `[expr {N}]` (a value with an
+/// integer representation and no string yet), the empty string `[list]`, a canonical list of two
+/// or more plain words `[list w1 w2 ...]` (a list representation, no string yet).  None when the
+/// argument has no such spelling.  Used to re-run a command with typed arguments: whatever a
+/// command does with them, the outcome must be that of the same strings.
+pub fn typed_word(arg: &str) -> Option<String> {
+    if arg.is_empty() {
+        return Some("[list]".to_string());
+    }
+    if let Ok(z) = arg.parse::<i64>() {
+        if z.to_string() == arg && z != i64::MIN {
+            return Some(format!("[expr {{{}}}]", z));
+        }
+    }
+    let plain = |w: &str| !w.is_empty() && w.chars().all(|c| c.is_ascii_alphanumeric() || c == '_' || c == '.' || c == '-');
+    let words: Vec<&str> = arg.split(' ').collect();
+    if words.len() >= 2 && words.iter().all(|w| plain(w)) {
+        return Some(format!("[list {}]", arg));
+    }
+    None
+}
+
+/// the script that invokes argv[0] with the arguments from position `from` on spelled as computed
+/// data where possible; None if no argument has such a spelling
+pub fn typed_call(argv: &[String], from: usize) -> Option<String> {
+    let mut any = false;
+    let mut parts: Vec<String> = Vec::new();
+    for (i, a) in argv.iter().enumerate() {
+        let w = if i >= from { typed_word(a) } else { None };
+        match w {
+            Some(t) => {
+                any = true;
+                parts.push(t);
+            }
+            None => parts.push(Value::from(vec![Value::from(a.as_str())]).as_str().to_string()),
+        }
+    }
+    if any { Some(parts.join(" ")) } else { None }
+}
